@@ -209,7 +209,11 @@ def _gc(keep=120):
         except OSError:
             continue
     ents.sort()
+    import time
+    now = time.time()
     for _m, p in ents[:-keep]:
+        if now - _m < 1800:
+            continue        # a young entry may belong to a check running in parallel that has not read it yet
         shutil.rmtree(p, ignore_errors=True)
 
 
